@@ -305,4 +305,8 @@ pub fn run(ctx: &Ctx) {
     let t = ctx.tier;
     ctx.run_sub("construction-and-map-routes", Plan::sample(t.pick(150_000, 1_000_000), 0.6), one_case);
     ctx.run_sub("decode-route", Plan::sample(t.pick(50_000, 400_000), 0.25), decode_case);
+    // pruning re-types witnesses: programs with heavy node sharing between pruned-away and live code (the C08
+    // generator), where every witness of the pruned program must be of its node's type and the program must survive
+    // its own encoding
+    ctx.run_sub("pruned-shared-programs", Plan::sample(t.pick(60_000, 600_000), 0.15), |rng, case| crate::c08::one_case(rng, case, crate::gen::Family::None));
 }
